@@ -151,6 +151,28 @@ DJV_CMD(reenc, "reenc")
     return hexbytes(p);
 }
 
+// reencz <kind> <blob-hex>: decode then re-encode a stored blob, framing
+// included (the length prefix is the caller's, so it may disagree with what
+// the stream inflates to): prints the payload of the re-encoded blob.
+DJV_CMD(reencz, "reencz")
+{
+    const std::string& k = a.at(1);
+    auto blob = parse_hexbytes(a.at(2));
+    blob.shrink_to_fit();
+    std::vector<std::byte> out;
+    bool comp = true;
+    if (k == "v2.beat") out = ev2::beat_data_blob::from_blob(blob).to_blob();
+    else if (k == "v2.cues") out = ev2::quick_cues_blob::from_blob(blob).to_blob();
+    else if (k == "v2.loops") { out = ev2::loops_blob::from_blob(blob).to_blob(); comp = false; }
+    else if (k == "v2.ovw") out = ev2::overview_waveform_data_blob::from_blob(blob).to_blob();
+    else if (k == "v2.track") out = ev2::track_data_blob::from_blob(blob).to_blob();
+    else throw bad_command{"kind"};
+    std::vector<std::byte> p;
+    if (!comp) return hexbytes(out);
+    if (!own_uncompress(out, p)) return "UNFRAMED";
+    return hexbytes(p);
+}
+
 // unz <blob-hex>: the library's decompression loop.
 DJV_CMD(unz, "unz")
 {
